@@ -122,6 +122,12 @@ func init() {
 					okFloor = hasParam && hasMin
 				} else if IsParam(sc, 1)(a.Val) {
 					okFloor = true
+				} else if call, isCall := unconv(a.Val).(*ssa.Call); isCall {
+					// builtin max(arg, minCwnd), either order
+					if b, isB := call.Call.Value.(*ssa.Builtin); isB && b.Name() == "max" && len(call.Call.Args) == 2 {
+						x, y := call.Call.Args[0], call.Call.Args[1]
+						okFloor = (IsParam(sc, 1)(x) && IsLoadOf(minC)(y)) || (IsParam(sc, 1)(y) && IsLoadOf(minC)(x))
+					}
 				}
 				c.Check(okFloor, "cwnd-floor", c.Pos(a.Instr), "stored cwnd is the argument, or minCwnd when the argument is smaller", "setCWND stores something other than max(arg, minCwnd)")
 			}
